@@ -46,7 +46,7 @@ func checkC20() fw.Check {
 		Assumptions:   []string{"faults are combined only with a SACK-capable target, where the expected outcome is unambiguous", "Linux build"},
 		Gen: func(tier string, seed int64) []fw.Case {
 			var reqs []c20Req
-			caps := []string{"sack-ok", "sack-ok-ts", "sack-ok-chatter", "sack-ok-slow-synack", "sack-ok-isn-wrap", "no-sackperm", "no-blocks", "closed", "no-handshake"}
+			caps := []string{"sack-ok", "sack-ok-ts", "sack-ok-chatter", "sack-ok-slow-synack", "sack-ok-isn-wrap", "sack-ok-timeout0", "no-sackperm", "no-blocks", "closed", "no-handshake"}
 			faults := []string{"factory", "filter1", "filter2", "send1", "send3", "read2", "read9", "read-late"}
 			for _, m := range []string{"syn", "sack", "prefer_sack"} {
 				for _, cp := range caps {
@@ -128,6 +128,11 @@ func runC20(c *fw.Ctx, id string, rq c20Req) {
 	}
 	params := traceroute.TracerouteParams{Hostname: target.String(), Port: int(port), Protocol: protoStr, MinTTL: 1, MaxTTL: rq.maxTTL, Delay: 5,
 		Timeout: 300 * time.Millisecond, TCPMethod: traceroute.TCPMethod(rq.method), TracerouteQueries: rq.queries, E2eQueries: rq.e2e}
+	if rq.cap == "sack-ok-timeout0" {
+		// a listening timeout of zero (unset by a library caller, --timeout 0): the handshake budget derived from it is
+		// "no separate limit", not "already expired" - the target is as SACK-capable as with any other timeout
+		params.Timeout = 0
+	}
 	needPeer := rq.cap != "closed"
 	env, err := newReqEnv(c, params, target, port, needPeer)
 	if err != nil {
